@@ -183,17 +183,25 @@ func lifeHTTPLate(c *Ctx, attempts, conns int) {
 			}
 		}()
 		var inFlight, lateHooks int32
+		conclusive := 0
 		for a := 0; a < attempts; a++ {
 			c.Touch()
 			n, h, st := lateAttempt(c.R, conns)
+			if st == "no-connection" || st == "first-round-failed" {
+				continue // the machine did not get the 300 idle connections up in time: nothing learnt from this attempt
+			}
 			if st != "ok" {
 				return st
 			}
+			conclusive++
 			inFlight += n
 			lateHooks += h
 			if n > 0 || h > 0 {
 				break
 			}
+		}
+		if conclusive == 0 {
+			return "no-conclusive-attempt"
 		}
 		return fmt.Sprintf("in_flight_when_stop_completed=%d post_hooks_started_after_stop=%d", inFlight, lateHooks)
 	}()
